@@ -137,8 +137,8 @@ EXPORT errno_t _strncpy_s_chk(char *restrict dest, rsize_t dmax,
     if (srcbos == BOS_UNKNOWN) {
         BND_CHK_PTR_BOUNDS(src, slen);
     } else if (unlikely(slen > srcbos)) {
-        return handle_str_bos_overflow("strncpy_s: slen exceeds src",
-                                       dest, destbos);
+        return handle_str_bos_overflow("strncpy_s: slen exceeds src", dest,
+                                       destbos == BOS_UNKNOWN ? dmax : destbos);
     }
 
     /* hold base in case src was not copied */
